@@ -74,3 +74,9 @@ PROPS['C20'] = {'units': ['C'], 'spec_tags': [], 'bounded': [],
 PROPS['C14'] = {'units': ['C'], 'spec_tags': [], 'bounded': ['typeddiff'],
                 'trusted': [TRUSTED_PARSE, TRUSTED_FRAMEGET, TRUSTED_STD,
                             "the song decoder's tag map (HashMap<Tag, Vec<String>> with the repository's own Hash/Eq on Tag) is outside vstd's HashMap model: the per-song attribute/tag content is decided only by the bounded differential stand-in (typeddiff)"]}
+
+PROPS['C13']['units'] = ['P', 'Pc', 'C']
+PROPS['C13']['bounded'] = list(PROPS['C13']['bounded']) + ['listpair']
+PROPS['C13']['trusted'] = PROPS['C13']['trusted'] + ['N11: impl_command_list_tuple! expanded by tools/macroexp.py from the macro_rules! definition in the same file',
+    '<Vec<C> as CommandList> (iterator adaptors map/zip/extend with trait-method paths) is NOT under contract: bounded stand-in listpair',
+    "vstd's specification of vec::IntoIter::next (prophetic remaining sequence)"]
